@@ -119,11 +119,16 @@ impl Date {
     /// `Date` adds days
     #[inline]
     pub fn add_days(self, days: f64) -> Result<Date> {
-        let timestamp = self.0.add_days(days)?;
-        Ok(Date(Timestamp::try_from_usecs(
-            ((timestamp.usecs() as f64) / USECONDS_PER_SECOND as f64).round() as i64
-                * USECONDS_PER_SECOND,
-        )?))
+        let usecs = self.0.add_days(days)?.usecs();
+        // Round to the nearest second (half away from zero) in integer arithmetic: the
+        // microsecond count of far dates exceeds 2^53 and is not exact as `f64`.
+        let rem = usecs % USECONDS_PER_SECOND;
+        let rounded = if rem.abs() * 2 >= USECONDS_PER_SECOND {
+            usecs - rem + rem.signum() * USECONDS_PER_SECOND
+        } else {
+            usecs - rem
+        };
+        Ok(Date(Timestamp::try_from_usecs(rounded)?))
     }
 
     /// `Date` subtracts `Date`
